@@ -105,7 +105,12 @@ def make_case(r):
         longer = None
 
         def word():
-            return bytes(r.choice(netgen.LOWER + netgen.DIGITS + b"_") for _ in range(r.randint(3, 9)))
+            # (a segment that reads as a command token - cmd, pwsh, powershell - starts a shell result of its own whose end
+            # depends on the text behind the path: not neutral for the position-independence comparison)
+            while True:
+                w = bytes(r.choice(netgen.LOWER + netgen.DIGITS + b"_") for _ in range(r.randint(3, 9)))
+                if w not in (b"cmd", b"pwsh", b"powershell"):
+                    return w
 
         if kind == "url":
             longer = ind.split(b"?")[0].split(b"#")[0].rstrip(b"/") + b"/" + b"/".join(word() for _ in range(n)) + r.choice([b"", b"?k=" + word() * (n // 4)])
